@@ -49,6 +49,7 @@ type FuncContract struct {
 	Tags     []Clause
 	Ats      []AtClause
 	NoExit   map[int][]string
+	FailStop map[string][]string // callee -> props: a non-nil error result of a call of it ends the function with a non-nil error at once
 	Invs     map[int][]Clause
 	Binds    map[int][]string
 	BindCalls map[string][]string // callee name -> names for the results of its first call site
@@ -545,6 +546,14 @@ func parseContractFile(path, pkgPath string, preds map[string]*Pred) ([]*FuncCon
 				callee = callee[:i]
 			}
 			cur.Ats = append(cur.Ats, AtClause{Callee: callee, Site: siteSel, Binders: splitNames(m[2]), Props: props, Text: m[4], Expr: ex, Line: l.no})
+		case "failstop":
+			props, body := parseProps(rest)
+			if cur.FailStop == nil {
+				cur.FailStop = map[string][]string{}
+			}
+			for _, n := range splitNames(body) {
+				cur.FailStop[n] = props
+			}
 		case "keeps":
 			km := keepsCallRe.FindStringSubmatch(t)
 			if km == nil {
@@ -630,6 +639,9 @@ func parseContractFile(path, pkgPath string, preds map[string]*Pred) ([]*FuncCon
 			add(a.Props)
 		}
 		for _, ps := range c.NoExit {
+			add(ps)
+		}
+		for _, ps := range c.FailStop {
 			add(ps)
 		}
 		for _, cls := range c.Invs {
